@@ -34,7 +34,7 @@ class Ob:
     def __init__(self, name, harness, units=(), models=(), defines=None, unit_defines=None,
                  unit_includes=(), remove=(), unwind=None, unwindset=(), restrict=(), flags=(),
                  timeout=300, mem_gb=6, kfs=(), kf_cover=True, tier='quick', note='', leak=False,
-                 unwind_violation=False, statement='', bounds='', expect_covers=True, solver=None,
+                 restrict_by=(), unwind_violation=False, statement='', bounds='', expect_covers=True, solver=None,
                  object_bits=10, malloc_may_fail=False, native_libs=('-lz',), cost=None):
         self.name = name; self.harness = harness; self.units = list(units); self.models = list(models)
         self.defines = dict(defines or {}); self.unit_defines = dict(unit_defines or {})
@@ -42,7 +42,7 @@ class Ob:
         self.unwind = unwind; self.unwindset = list(unwindset); self.restrict = list(restrict)
         self.flags = list(flags); self.timeout = timeout; self.mem_gb = mem_gb; self.kfs = list(kfs)
         self.kf_cover = kf_cover; self.tier = tier; self.note = note; self.leak = leak
-        self.unwind_violation = unwind_violation; self.statement = statement; self.bounds = bounds
+        self.restrict_by = list(restrict_by); self.unwind_violation = unwind_violation; self.statement = statement; self.bounds = bounds
         self.expect_covers = expect_covers; self.solver = solver; self.object_bits = object_bits
         self.malloc_may_fail = malloc_may_fail; self.native_libs = list(native_libs)
         self.cost = cost if cost is not None else timeout
@@ -136,7 +136,7 @@ def build_goto(ob, extra_defs):
     for u in ob.units:
         g = goto_compile(src_path(u), ob.unit_defines, ob.unit_includes)
         parts.append(remove_bodies(g, ob.remove))
-    key = hkey('link', parts, ob.restrict)
+    key = hkey('link', parts, ob.restrict, ob.restrict_by)
     out = os.path.join(scratch(), key + '.gb')
     def build():
         if os.path.exists(out): return out
@@ -144,8 +144,21 @@ def build_goto(ob, extra_defs):
         rc, o, e, _, _ = sh(['goto-cc', '-o', tmp] + parts, timeout=300)
         if rc != 0 or not os.path.exists(tmp):
             raise BuildError('link failed\n%s%s' % (o[-3000:], e[-3000:]))
-        if ob.restrict:
-            cmd = ['goto-instrument'] + sum([['--restrict-function-pointer', r] for r in ob.restrict], []) + [tmp, out]
+        restrict = list(ob.restrict)
+        if ob.restrict_by:
+            # name every function-pointer call site whose pointer expression matches a pattern and pin it to the
+            # harness's targets (goto-instrument inserts an assertion that the pointer is one of them)
+            rc, o, e, _, _ = sh(['goto-instrument', '--restrict-function-pointer', '__verif_none__.function_pointer_call.1/harness', tmp, tmp + '.lab.gb'], timeout=300)
+            rc, o, e, _, _ = sh(['goto-instrument', '--show-goto-functions', tmp + '.lab.gb'], timeout=300)
+            try: os.unlink(tmp + '.lab.gb')
+            except OSError: pass
+            for m in re.finditer(r'ASSIGN (\S+\.function_pointer_call\.\d+) := (.*)', o):
+                label, expr = m.group(1), m.group(2)
+                for pat, targets in ob.restrict_by:
+                    if re.search(pat, expr):
+                        restrict.append('%s/%s' % (label, targets)); break
+        if restrict:
+            cmd = ['goto-instrument'] + sum([['--restrict-function-pointer', r] for r in restrict], []) + [tmp, out]
             rc, o, e, _, _ = sh(cmd, timeout=300)
             if rc != 0 or not os.path.exists(out):
                 raise BuildError('restrict-function-pointer failed: %s\n%s%s' % (' '.join(cmd), o[-3000:], e[-3000:]))
